@@ -271,6 +271,28 @@ def _add_cmp(z: Facts, left: ast.AST, op: ast.cmpop, right: ast.AST, pos: bool) 
             z._closed = False
 
 
+def _ifexp_alts(value: ast.AST, z: "Facts") -> list[ast.AST] | None:
+    """`a + (1 if c else 0)`: the alternatives of the one conditional expression inside `value` - a single one when the facts
+    decide the condition.  None if there is no (or more than one) conditional expression."""
+    ifs = [n for n in ast.walk(value) if isinstance(n, ast.IfExp)]
+    if len(ifs) != 1 or not _pred_ok(ifs[0].test):
+        return None
+    ie = ifs[0]
+    import copy
+
+    def pick(branch: ast.AST) -> ast.AST:
+        class R(ast.NodeTransformer):
+            def visit_IfExp(self, node: ast.IfExp) -> ast.AST:
+                return copy.deepcopy(branch)
+        return R().visit(copy.deepcopy(value))
+    t, pol = norm_pred(ie.test, True)
+    if z.holds(t, pol):
+        return [pick(ie.body)]
+    if z.holds(t, not pol):
+        return [pick(ie.orelse)]
+    return [pick(ie.body), pick(ie.orelse)]
+
+
 def _int_like(e: ast.AST) -> bool:
     """Cheap syntactic filter: comparisons against string / None / bool constants carry no integer fact."""
     if isinstance(e, ast.Constant):
@@ -278,11 +300,25 @@ def _int_like(e: ast.AST) -> bool:
     return True
 
 
+_DEFSEP = " :=: "
+
+
 def assume(z: Facts, e: ast.AST, pos: bool) -> None:
     """Refine z with e being truthy (pos) / falsy (not pos)."""
     if isinstance(e, ast.UnaryOp) and isinstance(e.op, ast.Not):
         assume(z, e.operand, not pos)
         return
+    if isinstance(e, ast.Name):
+        # a boolean local whose defining expression is still valid (nothing it mentions was written since): assume that too
+        pre = e.id + _DEFSEP
+        for (t, pol) in list(z.preds):
+            if pol and t.startswith(pre):
+                try:
+                    d = ast.parse(t[len(pre):], mode="eval").body
+                except SyntaxError:
+                    continue
+                if not (isinstance(d, ast.Name) and d.id == e.id):
+                    assume(z, d, pos)
     if isinstance(e, ast.BoolOp):
         if (isinstance(e.op, ast.And) and pos) or (isinstance(e.op, ast.Or) and not pos):
             for v in e.values:
@@ -305,6 +341,11 @@ def assume(z: Facts, e: ast.AST, pos: bool) -> None:
                 left = right
     if _pred_ok(e):
         z.preds.add(norm_pred(e, pos))
+
+
+def _pure_call(c: ast.Call) -> bool:
+    """Calls allowed inside a remembered flag definition: they are not re-evaluated, only their comparison operands are used."""
+    return True
 
 
 def _pred_ok(e: ast.AST) -> bool:
@@ -405,11 +446,13 @@ BoolSummary = Callable[[ast.Call, bool], Iterable[tuple[str, str, int]]]
 
 class FactsProblem(Problem):
     def __init__(self, cfg: CFG, entry: Facts | None = None, call_kills: CallKills | None = None,
-                 bool_summary: BoolSummary | None = None) -> None:
+                 bool_summary: BoolSummary | None = None, call_posts=None, result_bounds=None) -> None:
         self.cfg = cfg
         self.entry = entry or Facts()
         self.call_kills = call_kills or default_call_kills
         self.bool_summary = bool_summary
+        self.call_posts = call_posts          # call -> [(a, b, k)]: a - b <= k holds when the call has returned (verified contracts)
+        self.result_bounds = result_bounds    # (call, facts before the call) -> [(b, k)]: the value returned is <= b + k
 
     def entry_state(self) -> Facts:
         return self.entry.copy()
@@ -444,6 +487,9 @@ class FactsProblem(Problem):
             if isinstance(c, ast.Call):
                 for path in self.call_kills(c):
                     self._kill(z, path)
+                if self.call_posts is not None:
+                    for (pa, pb, pk) in self.call_posts(c):
+                        z.add(pa, pb, pk)
                 f = c.func
                 if isinstance(f, ast.Attribute) and f.attr in MUTATORS:
                     kp = kill_path_of_target(f.value)
@@ -460,6 +506,9 @@ class FactsProblem(Problem):
             return
         if isinstance(s, ast.Assert):
             return
+        rb: list[tuple[str, int]] = []
+        if self.result_bounds is not None and isinstance(s, (ast.Assign, ast.AnnAssign)) and isinstance(s.value, ast.Call):
+            rb = list(self.result_bounds(s.value, z))
         self.apply_calls(z, s)
         if isinstance(s, ast.AugAssign):
             kp = kill_path_of_target(s.target)
@@ -476,9 +525,20 @@ class FactsProblem(Problem):
             if value is None:
                 return
             simple = all(isinstance(t, (ast.Name, ast.Attribute)) for t in targets)
+            alts = _ifexp_alts(value, z) if simple else None
+            if alts is not None and len(alts) == 1:
+                value = alts[0]
             r = lin(value) if simple else None
             new_eqs: list[tuple[str, str, int]] = []
             new_ub: list[tuple[str, str, int]] = []     # a - b <= k
+            if alts is not None and len(alts) == 2 and r is None:
+                la, lb = lin(alts[0]), lin(alts[1])
+                if la is not None and lb is not None and la[0] == lb[0]:
+                    for t in targets:
+                        tt = U(t)
+                        if kill_path_of_target(t) == tt and not mentions(T(la[0]), tt):
+                            new_ub.append((tt, T(la[0]), max(la[1], lb[1])))
+                            new_ub.append((T(la[0]), tt, -min(la[1], lb[1])))
             for t in store_targets(s):
                 kp = kill_path_of_target(t)
                 if kp is None:
@@ -520,6 +580,21 @@ class FactsProblem(Problem):
                 z.add_eq(a, b, c)
             for (a, b, k) in new_ub:
                 z.add(a, b, k)
+            if len(targets) == 1 and isinstance(targets[0], ast.Name) and isinstance(value, (ast.BoolOp, ast.Compare, ast.UnaryOp)) \
+                    and _pred_ok(value) and not any(isinstance(x, ast.Call) and not _pure_call(x) for x in ast.walk(value)) \
+                    and not any(isinstance(x, ast.Name) and x.id == targets[0].id for x in ast.walk(value)):
+                # flag = <comparison / and / or / not>: remembered until something the expression mentions is written
+                z.preds.add((targets[0].id + _DEFSEP + U(value), True))
+            if simple:
+                names = [U(t) for t in targets if kill_path_of_target(t) == U(t)]
+                for (b, k) in rb:
+                    for tt in names:
+                        if not mentions(b, tt):
+                            z.add(tt, b, k)
+                # a = b = <expr>: the targets hold the same value
+                for t1, t2 in zip(names, names[1:]):
+                    if not mentions(t1, t2) and not mentions(t2, t1):
+                        z.add_eq(t1, t2, 0)
             # len(x) >= 0 style facts are implicit; nothing else
             return
         if isinstance(s, ast.Delete):
@@ -599,5 +674,83 @@ class FactsProblem(Problem):
 
 
 def analyse(cfg: CFG, entry: Facts | None = None, call_kills: CallKills | None = None,
-            bool_summary: BoolSummary | None = None) -> dict[int, Facts | None]:
-    return solve(cfg, FactsProblem(cfg, entry, call_kills, bool_summary))
+            bool_summary: BoolSummary | None = None, call_posts=None, result_bounds=None) -> dict[int, Facts | None]:
+    return solve(cfg, FactsProblem(cfg, entry, call_kills, bool_summary, call_posts, result_bounds))
+
+
+class PartitionedFacts(Problem):
+    """Trace partitioning of a facts analysis by the truthiness of one local flag: the state maps a class of the flag's current
+    value ('T' truthy, 'F' falsy, '?' unknown) to the facts that hold on the paths where the flag is in that class.  A test
+    of the flag drops the partitions it contradicts; an assignment of a value of known truthiness merges everything into
+    that class.  Used to discharge `flag implies bound` correlations that a single conjunction of facts loses at joins."""
+
+    def __init__(self, base: FactsProblem, flag: str, truth_of) -> None:
+        self.base, self.flag, self.truth_of = base, flag, truth_of     # truth_of(expr) -> True / False / None
+
+    def entry_state(self):
+        return {"?": self.base.entry_state()}
+
+    def join(self, a, b, at):
+        out = dict(a)
+        for k, z in b.items():
+            out[k] = out[k].join(z) if k in out else z
+        return out
+
+    def equal(self, a, b):
+        return a.keys() == b.keys() and all(a[k].same(b[k]) for k in a)
+
+    def widen(self, old, new, at):
+        out = {}
+        for k, z in new.items():
+            out[k] = old[k].widen(z) if k in old else z
+        return out
+
+    def _flag_assigned(self, a: ast.AST):
+        """None if the statement does not assign the flag, else the class of the value assigned."""
+        if isinstance(a, ast.Assign):
+            hit = any(isinstance(x, ast.Name) and x.id == self.flag and isinstance(x.ctx, ast.Store) for t in a.targets for x in ast.walk(t))
+            if hit:
+                simple = any(isinstance(t, ast.Name) and t.id == self.flag for t in a.targets)
+                t_ = self.truth_of(a.value) if simple else None
+                return "?" if t_ is None else ("T" if t_ else "F")
+        elif isinstance(a, ast.AnnAssign) and isinstance(a.target, ast.Name) and a.target.id == self.flag and a.value is not None:
+            t_ = self.truth_of(a.value)
+            return "?" if t_ is None else ("T" if t_ else "F")
+        elif isinstance(a, ast.AugAssign) and isinstance(a.target, ast.Name) and a.target.id == self.flag:
+            return "?"
+        return None
+
+    def edge(self, n: Node, state, label: str, succ: Node):
+        out = {}
+        a = n.ast
+        want = None
+        if n.kind == "test" and label in ("T", "F") and a is not None:
+            e, pos = a, label == "T"
+            while isinstance(e, ast.UnaryOp) and isinstance(e.op, ast.Not):
+                e, pos = e.operand, not pos
+            if isinstance(e, ast.Name) and e.id == self.flag:
+                want = "T" if pos else "F"
+        for k, z in state.items():
+            if want is not None and k != "?" and k != want:
+                continue
+            z2 = self.base.edge(n, z, label, succ)
+            if z2 is None:
+                continue
+            k2 = want if want is not None else k
+            out[k2] = out[k2].join(z2) if k2 in out else z2
+        if n.kind == "stmt" and label != "exc" and a is not None:
+            cls = self._flag_assigned(a)
+            if cls is not None and out:
+                acc = None
+                for z in out.values():
+                    acc = z if acc is None else acc.join(z)
+                if cls != "?":
+                    acc = acc.copy()
+                    acc.preds.add((self.flag, cls == "T"))
+                out = {cls: acc}
+        elif n.kind == "for" and label == "iter" and any(isinstance(x, ast.Name) and x.id == self.flag for x in ast.walk(a.target)):
+            acc = None
+            for z in out.values():
+                acc = z if acc is None else acc.join(z)
+            out = {"?": acc} if acc is not None else {}
+        return out or None
